@@ -12,6 +12,7 @@
 (*   QSubmit ok / full               name bound / rejected only when full  *)
 (*   (no record)                     NextPop        silent, before the del *)
 (*   KV queue del                    NextDel        key = popped key       *)
+(*   KVFail queue del / put          NextDelRefused / SubmitPutRefused      *)
 (*   QNext c                         c is what the model handed out last   *)
 (*   QRestart                        Load (after a silent Stop when up)    *)
 (*   Crash                           Crash                                 *)
@@ -35,7 +36,7 @@ SReset ==
     /\ l <= N /\ e.ev = "Reset"
     /\ l' = l + 1 /\ run' = e.run /\ drifted' = (BoundOf(e.bound) # Bound) /\ nhand' = 0 /\ drift' = drift
     /\ accepted' = <<>> /\ handed' = <<>> /\ mem' = <<>> /\ db' = <<>> /\ seq' = 0
-    /\ pcS' = [s \in Sub |-> [st |-> "idle"]] /\ pcN' = [st |-> "idle"] /\ up' = FALSE /\ ops' = 0 /\ crashes' = 0
+    /\ pcS' = [s \in Sub |-> [st |-> "idle"]] /\ pcN' = [st |-> "idle"] /\ up' = FALSE /\ ops' = 0 /\ crashes' = 0 /\ fails' = 0
 
 SRestart ==
     /\ Is("QRestart") /\ e.ok /\ Adv /\ UNCHANGED nhand
@@ -49,12 +50,20 @@ SKV ==
        \/ /\ e.op = "del" /\ pcN.st = "del" /\ e.h = pcN.key /\ e.key = pcN.c
           /\ NextDel
 
+\* a refused write: the record that could not be written / deleted is logged with the same fields as a write that lands
+SKVFail ==
+    /\ Is("KVFail") /\ e.kind = "queue" /\ Adv /\ UNCHANGED nhand
+    /\ \/ /\ e.op = "put" /\ e.h = seq /\ pcS[1].st = "idle" /\ pcN.st = "idle"
+          /\ SubmitPutRefused(1, e.key)
+       \/ /\ e.op = "del" /\ pcN.st = "del" /\ e.h = pcN.key /\ e.key = pcN.c
+          /\ NextDelRefused
+
 \* the in-memory halves of submit and next leave no record
 SSilent ==
     /\ l <= N /\ ~drifted /\ UNCHANGED xvars
     /\ \/ /\ pcS[1].st = "put" /\ e.ev # "Crash"
           /\ SubmitAck(1)
-       \/ /\ pcS[1].st = "idle" /\ pcN.st = "idle" /\ e.ev = "KV" /\ e.kind = "queue" /\ e.op = "del"
+       \/ /\ pcS[1].st = "idle" /\ pcN.st = "idle" /\ e.ev \in {"KV", "KVFail"} /\ e.kind = "queue" /\ e.op = "del"
           /\ NextPop
        \/ /\ up /\ pcS[1].st = "idle" /\ e.ev = "QRestart"      \* a restart of a running sequencer: stop, then load
           /\ Stop
@@ -65,6 +74,7 @@ SSubmit ==
     /\ CASE e.res = "ok" -> \E i \in 1 .. Len(accepted) : accepted[i] = e.k
          [] e.res = "full" -> Len(mem) >= Bound
          [] e.res \in {"crash", "empty", "badid"} -> TRUE
+         [] e.res = "err" -> "wf" \in DOMAIN e /\ e.wf          \* only a refused write makes a submission fail
          [] OTHER -> FALSE
 
 SNext ==
@@ -75,13 +85,14 @@ SNext ==
                                        /\ handed[Len(handed)] = e.k
                                        /\ nhand' = nhand + 1
          [] e.res = "crash" -> nhand' = Len(handed)
+         [] e.res = "err" -> "wf" \in DOMAIN e /\ e.wf /\ Len(handed) = nhand /\ UNCHANGED nhand   \* nothing handed out
          [] OTHER -> FALSE
 
 SCrash == Is("Crash") /\ Adv /\ nhand' = Len(handed) /\ (IF up THEN Crash ELSE Same)
 
 SOther == l <= N /\ ~drifted /\ e.ev \in {"QDrain", "QEnd"} /\ Adv /\ UNCHANGED nhand /\ Same
 
-Strict == SRestart \/ SKV \/ SSilent \/ SSubmit \/ SNext \/ SCrash \/ SOther
+Strict == SRestart \/ SKV \/ SKVFail \/ SSilent \/ SSubmit \/ SNext \/ SCrash \/ SOther
 
 SDrift ==
     /\ l <= N /\ ~drifted /\ e.ev # "Reset" /\ ~ENABLED Strict
